@@ -103,6 +103,12 @@ def usb3_crc32(data):
 def selftest():
     assert usb2_crc16(bytes([0, 1, 2, 3])) == bytes([0xEF, 0x7A])   # 0xF75E, bit-reversed per byte
     assert usb3_crc32(b"123456789") == 0xCBF43926
+    import struct
+    # recorded flash-drive capture (repository test vectors) and a recorded header packet
+    assert usb3_crc32(struct.pack('<I', 0x02000112)) == 0x34984B13
+    assert usb3_crc32(struct.pack('<IIII', 0x03000112, 0x09000000, 0x520013FE, 0x02010100) + bytes([3, 1])) == 0x540AA487
+    assert usb3_crc16(struct.pack('<III', 0x00000280, 0x00010004, 0)) == 0x1845
+    assert usb3_crc5(0, 11) == 2
     # SETUP token to address 0 / endpoint 0 is the canonical 2D 00 10
     assert usb2_token_crc5(0, 0) == 0x10 >> 3, usb2_token_crc5(0, 0)
     return True
